@@ -70,7 +70,7 @@ pub fn cred_of(v: &Value) -> MessageIntegrityCredentials {
     }
 }
 
-fn addr_json(a: SocketAddr) -> Value {
+pub fn addr_json(a: SocketAddr) -> Value {
     match a {
         SocketAddr::V4(x) => json!({"fam": 1, "ip": x.ip().octets().to_vec(), "port": x.port()}),
         SocketAddr::V6(x) => json!({"fam": 2, "ip": x.ip().octets().to_vec(), "port": x.port()}),
